@@ -413,3 +413,113 @@ func RuleZone(r *Report, p *Program, c *Codec) {
 	}
 	_ = types.Typ
 }
+
+// Z6: the zero test of the date types is the zero test of the instant they wrap.
+// Z7: an instant parsed from a civil date-time text (a layout with an hour) is kept as parsed: the value a
+// decoder returns or stores is the parse result itself (whole-second truncation aside) — no offset is added to
+// it, and it is not rebuilt from its civil fields (which picks the other occurrence of a repeated local time).
+func RuleInstants(r *Report, p *Program) {
+	r.Rule("Z6", "IsZero of a date / date-time type is exactly IsZero of the wrapped instant (independent of location)", 2)
+	r.Rule("Z7", "a decoder that parses a civil date and time returns or stores exactly the parsed instant (optionally truncated to the second): no arithmetic on it, no rebuilding from civil fields", 2)
+	tp := p.SSAPkg("types")
+	for _, nt := range namedTypes(p, "types") {
+		if !strings.HasSuffix(nt.Underlying().String(), "time.Time") && nt.Underlying().String() != "struct{wall uint64; ext int64; loc *time.Location}" {
+			continue
+		}
+		if fn := methodOf(p, nt, "IsZero"); fn != nil {
+			name := "types." + nt.Obj().Name() + ".IsZero"
+			paths := walkSimple(p, fn, []string{"d"}, typesHelpers(p))
+			ok := len(paths) == 1 && len(paths[0].Results) == 1 && paths[0].Results[0].String() == "(time.Time).IsZero(d)"
+			got := ""
+			if len(paths) > 0 && len(paths[0].Results) == 1 {
+				got = paths[0].Results[0].String()
+			}
+			r.Check(ok, "Z6", name, p.Pos(fn.Pos()), "(time.Time).IsZero(d)", "the zero test is "+cut(got, 100)+", not the zero test of the wrapped instant: a 'missing' value built in another location is no longer recognised")
+		}
+	}
+	for _, fn := range p.AllFuncs {
+		if pkgOf(fn) != tp || fn.Parent() != nil || fn.Signature.Recv() == nil {
+			continue
+		}
+		if fn.Name() != "UnmarshalUT0311L0x" && fn.Name() != "UnmarshalJSON" {
+			continue
+		}
+		// parses with an hour verb?
+		lay := map[string]bool{}
+		collectCallConsts(fn, "time.ParseInLocation", 0, lay, 0, p)
+		collectCallConsts(fn, "time.Parse", 0, lay, 0, p)
+		hasHour := false
+		for l := range lay {
+			if strings.Contains(l, "15") {
+				hasHour = true
+			}
+		}
+		if !hasHour {
+			continue
+		}
+		name := calleeName(fn)
+		bad := ""
+		n := 0
+		for _, pa := range walkSimple(p, fn, []string{"d", "b"}, typesHelpers(p)) {
+			if pa.Outcome != "return" {
+				continue
+			}
+			// the parse results of this path that succeeded
+			var parsed []string
+			for _, e := range pa.Events {
+				if e.Kind == "call" && (e.Name == "time.ParseInLocation" || e.Name == "time.Parse") && e.Result != nil {
+					if okp, known := pa.State.Bools["isnil("+e.Result.String()+"#1)"]; known && okp {
+						parsed = append(parsed, e.Result.String()+"#0")
+					}
+				}
+			}
+			if len(parsed) == 0 {
+				continue
+			}
+			// values that leave the decoder: results and stores through the receiver
+			var outs []*Term
+			for _, res := range pa.Results {
+				outs = append(outs, res)
+			}
+			for _, e := range pa.Events {
+				if e.Kind == "store" && len(e.Args) == 2 {
+					outs = append(outs, e.Args[1])
+				}
+			}
+			for _, c := range pa.Cells {
+				if c.Val != nil && c.Heap {
+					outs = append(outs, c.Val)
+				}
+			}
+			for _, o := range outs {
+				seen := map[*Term]bool{}
+				visitTerm(o, seen, func(x *Term) {
+					if x.Op != "call" {
+						return
+					}
+					uses := false
+					for _, pr := range parsed {
+						if strings.Contains(x.String(), pr) {
+							uses = true
+						}
+					}
+					if !uses {
+						return
+					}
+					switch {
+					case x.Name == "(time.Time).Truncate" || x.Name == "(time.Time).Round":
+					case x.Name == "time.ParseInLocation" || x.Name == "time.Parse":
+					case x.Name == "(time.Time).Add" || x.Name == "(time.Time).AddDate" || x.Name == "(time.Time).In" || x.Name == "(time.Time).UTC" || x.Name == "(time.Time).Local":
+						bad = "the parsed instant is altered by " + x.Name + " before it leaves the decoder (" + p.Pos(x.Pos) + ")"
+					case x.Name == "time.Date":
+						bad = "the parsed instant is rebuilt from its civil fields with time.Date: of the two occurrences of a repeated local time (end of daylight saving) the other one may be chosen"
+					}
+				})
+			}
+			n++
+		}
+		if n > 0 {
+			r.Check(bad == "", "Z7", name, p.Pos(fn.Pos()), fmt.Sprintf("%d paths with a successful parse", n), bad)
+		}
+	}
+}
